@@ -10,7 +10,7 @@ import (
 
 // Noise kinds: the per-field mutation lattice of DESIGN.md C09. NoiseCount(kind, len) tells how many
 // variants a base reply of the given length has; NoiseApply returns variant #arg.
-var NoiseKinds = []string{"truncate", "version", "ihl", "total-length", "protocol", "icmp-type", "l4-offset", "tcp-opt-len", "oversize", "quoted-ihl", "quoted-proto", "quoted-version", "quoted-length", "garbage-payload"}
+var NoiseKinds = []string{"truncate", "version", "ihl", "total-length", "protocol", "icmp-type", "l4-offset", "tcp-opt-len", "oversize", "quoted-ihl", "quoted-proto", "quoted-version", "quoted-length", "garbage-payload", "sack-opt-len"}
 
 func l4off(b []byte) int {
 	if len(b) == 0 {
@@ -44,6 +44,8 @@ func NoiseCount(kind string, b []byte) int {
 		return 8
 	case "tcp-flags":
 		return 255 // every flag byte except SYN|ACK itself
+	case "sack-opt-len":
+		return 7
 	}
 	return 0
 }
@@ -242,6 +244,69 @@ func NoiseApply(kind string, b []byte, arg int) []byte {
 		if !found {
 			return nil
 		}
+	case "sack-opt-len":
+		// the SACK option keeps its complete blocks and grows by arg+1 (1..7) stray bytes - a partial trailing block - with
+		// its length byte saying so; the option list stays well-formed (padded with no-operations) and so do lengths and checksums
+		if proto != 6 || len(o) < lo+20 {
+			return nil
+		}
+		end := lo + int(o[lo+12]>>4)*4
+		if end > len(o) {
+			return nil
+		}
+		var opts []byte
+		found := false
+		for i := lo + 20; i < end; {
+			k := o[i]
+			if k == 0 || k == 1 {
+				opts = append(opts, k)
+				i++
+				continue
+			}
+			if i+1 >= end {
+				return nil
+			}
+			ln := int(o[i+1])
+			if ln < 2 || i+ln > end {
+				return nil
+			}
+			if k == 5 && ln >= 10 && !found {
+				found = true
+				opts = append(opts, 5, byte(ln+arg+1))
+				opts = append(opts, o[i+2:i+ln]...)
+				for j := 0; j <= arg; j++ {
+					opts = append(opts, 0xff)
+				}
+			} else {
+				opts = append(opts, o[i:i+ln]...)
+			}
+			i += ln
+		}
+		for len(opts)%4 != 0 {
+			opts = append(opts, 1)
+		}
+		if !found || len(opts) > 40 {
+			return nil
+		}
+		payload := append([]byte{}, o[end:]...)
+		o = append(append(append([]byte{}, o[:lo+20]...), opts...), payload...)
+		o[lo+12] = byte((20+len(opts))/4) << 4
+		if v6 {
+			binary.BigEndian.PutUint16(o[4:], uint16(len(o)-40))
+		} else {
+			binary.BigEndian.PutUint16(o[2:], uint16(len(o)))
+			refcodec.FixIPv4Checksum(o)
+		}
+		o[lo+16], o[lo+17] = 0, 0
+		var src, dst netip.Addr
+		if v6 {
+			src, _ = netip.AddrFromSlice(o[8:24])
+			dst, _ = netip.AddrFromSlice(o[24:40])
+		} else {
+			src, _ = netip.AddrFromSlice(o[12:16])
+			dst, _ = netip.AddrFromSlice(o[16:20])
+		}
+		binary.BigEndian.PutUint16(o[lo+16:], refcodec.L4Checksum(src, dst, 6, o[lo:]))
 	case "garbage-payload":
 		// valid headers, garbage after them
 		keep := []int{lo, lo + 4, lo + 8, lo + 8 + 20}[arg]
